@@ -236,7 +236,8 @@ register("C10", {
             "http1/http2 switches x server ALPN preference x sni_hostname on/off x hosts (names, "
             "IPv4, IPv6 literal) x explicit/implicit ports; histories of 2..6 requests over 2..4 "
             "near-miss origins (same host other scheme, same host other port, explicit-default vs "
-            "implicit port) through one pool, one or two callers; a fifth of the HTTP proxies "
+            "implicit port) through one pool, one or two callers; in a third of the runs the ssl "
+            "context arrives with an ALPN list already set on it (as after use by another pool); a fifth of the HTTP proxies "
             "refuse CONNECT (3xx/4xx/5xx) and a sixth of the SOCKS proxies refuse the request: "
             "nothing meant for the origin may then be written; oracle on the ledger of "
             "connect/CONNECT/SOCKS targets, TLS layers, SNI, ALPN offers and the protocol the "
